@@ -531,11 +531,11 @@ def body(ctx, case):
 def run(ctx):
     ctx.set_budget(75, 800)
     ctx.assume("window/packet sizes are uint32 on the wire; transport-wide defaults are taken from the documented range (>= 32768 / >= 4096) because the server side advertises them unclamped")
-    ctx.explore(snd_case, lambda c: body(ctx, c), ctx.scale(120, 700), shrink=False)
-    ctx.explore(rcv_case, lambda c: body(ctx, c), ctx.scale(100, 550), shrink=False, seed_offset=1)
+    ctx.explore(snd_case, lambda c: body(ctx, c), ctx.scale(100, 700), shrink=False)
+    ctx.explore(rcv_case, lambda c: body(ctx, c), ctx.scale(90, 550), shrink=False, seed_offset=1)
     # E4: deterministic, so failing cases are shrunk
-    ctx.explore(e4snd_case, lambda c: body(ctx, c), ctx.scale(800, 6000), seed_offset=2)
-    ctx.explore(e4rcv_case, lambda c: body(ctx, c), ctx.scale(400, 3000), seed_offset=3)
+    ctx.explore(e4snd_case, lambda c: body(ctx, c), ctx.scale(600, 6000), seed_offset=2)
+    ctx.explore(e4rcv_case, lambda c: body(ctx, c), ctx.scale(300, 3000), seed_offset=3)
 
 
 def replay(ctx, case):
